@@ -91,6 +91,8 @@ def run(chk):
 
 def replay(chk, path):
     case = json.load(open(path))["payload"]
+    if vlib.replay_generic(chk, case):
+        chk.finish(rule="re-validation of one recorded trace / batch job")
     if "program" in case:
         rows = vlib.replay(chk, case["curve"], [case["program"]], "replay")
         vlib.report_replay(chk, rows, "soundness")
